@@ -20,6 +20,15 @@ type Frame struct {
 	bind   []Value
 }
 
+// goPanicSignal is a Go panic travelling up the interpreted call stack (host panic value). It is raised only when
+// some frame below has pending deferred calls (which could recover); otherwise the panic is reported at once.
+type goPanicSignal struct {
+	val        Value  // the panic value (an interface value)
+	id, msg    string // finding identity if the panic is never recovered
+	recovered  bool
+	deferDepth int // call depth of the deferred function currently allowed to recover
+}
+
 type deferred struct {
 	fv   *FuncV
 	args []Value
@@ -213,7 +222,69 @@ func (ex *Exec) call(fn *ssa.Function, args []Value, bind []Value) Value {
 	for i, p := range fn.Params {
 		fr.env[p] = args[i]
 	}
+	th.frames = append(th.frames, fr)
+	defer func() { th.frames = th.frames[:len(th.frames)-1] }()
+	return ex.runFrameProtected(fr)
+}
+
+// runFrameProtected runs the frame; when a Go panic unwinds through it, the frame's deferred calls are run with the
+// panic active, and if one of them recovers the function returns through its recover block.
+func (ex *Exec) runFrameProtected(fr *Frame) (res Value) {
+	defer func() {
+		r := recover()
+		if r == nil {
+			return
+		}
+		sig, ok := r.(*goPanicSignal)
+		if !ok {
+			panic(r)
+		}
+		th := ex.cur
+		for len(fr.defers) > 0 {
+			d := fr.defers[len(fr.defers)-1]
+			fr.defers = fr.defers[:len(fr.defers)-1]
+			saved := th.activePanic
+			th.activePanic = sig
+			sig.deferDepth = th.depth + 1
+			ex.callValue(d.fv, d.args)
+			th.activePanic = saved
+		}
+		if !sig.recovered {
+			panic(sig)
+		}
+		// recovered: the function returns normally through its recover block (named results), or with zero results
+		if fr.fn.Recover != nil {
+			res = ex.runFrameFrom(fr, fr.fn.Recover)
+			return
+		}
+		results := fr.fn.Signature.Results()
+		switch results.Len() {
+		case 0:
+			res = nil
+		case 1:
+			res = zero(results.At(0).Type())
+		default:
+			tv := make(TupleV, results.Len())
+			for i := range tv {
+				tv[i] = zero(results.At(i).Type())
+			}
+			res = tv
+		}
+	}()
 	return ex.runFrame(fr)
+}
+
+// pendingDefers reports whether a frame of the current thread has deferred calls that would run during a panic.
+func (ex *Exec) pendingDefers() bool {
+	if ex.cur == nil {
+		return false
+	}
+	for _, f := range ex.cur.frames {
+		if len(f.defers) > 0 {
+			return true
+		}
+	}
+	return false
 }
 
 func poisonResult(fn *ssa.Function, why string) Value {
@@ -232,7 +303,10 @@ func poisonResult(fn *ssa.Function, why string) Value {
 }
 
 func (ex *Exec) runFrame(fr *Frame) Value {
-	block := fr.fn.Blocks[0]
+	return ex.runFrameFrom(fr, fr.fn.Blocks[0])
+}
+
+func (ex *Exec) runFrameFrom(fr *Frame, block *ssa.BasicBlock) Value {
 	var prev *ssa.BasicBlock
 	for {
 		var next *ssa.BasicBlock
@@ -274,7 +348,7 @@ func (ex *Exec) runFrame(fr *Frame) Value {
 				return res
 			case *ssa.Panic:
 				v := ex.get(fr, i.X)
-				ex.goPanic(fr, ins, "panic: "+showValue(v))
+				ex.goPanicVal(fr, ins, "panic: "+showValue(v), v)
 			case *ssa.RunDefers:
 				ex.runDefers(fr)
 			default:
@@ -307,11 +381,28 @@ func (ex *Exec) runDefers(fr *Frame) {
 
 // goPanic reports a reachable Go panic on the current path and ends the path.
 func (ex *Exec) goPanic(fr *Frame, ins ssa.Instruction, msg string) {
+	ex.goPanicVal(fr, ins, msg, nil)
+}
+
+// goPanicVal raises a Go panic with the given value (nil: a run-time error built from msg). If deferred calls are
+// pending on the stack the panic unwinds (they may recover); otherwise it is a finding at once.
+func (ex *Exec) goPanicVal(fr *Frame, ins ssa.Instruction, msg string, val Value) {
 	if ex.lenient > 0 {
 		ex.unsupported("panic during package initialisation: %s", msg)
 	}
 	where := ex.position(fr, ins)
 	id := "panic@" + where
+	if ex.pendingDefers() {
+		if val == nil {
+			val = ex.makeError("runtime error: " + msg)
+		}
+		panic(&goPanicSignal{val: val, id: id, msg: msg + ex.whereString()})
+	}
+	ex.reportPanic(id, msg+ex.whereString())
+}
+
+// reportPanic records an unrecovered Go panic and ends the path.
+func (ex *Exec) reportPanic(id, msg string) {
 	_, m := ex.check(nil, true)
 	ex.H.Stats.PanicChecks++
 	ex.H.AssertIDs[id]++
@@ -332,6 +423,13 @@ func (ex *Exec) panicIf(fr *Frame, ins ssa.Instruction, cond *Term, msg string) 
 	}
 	if cond.IsConst() {
 		ex.goPanic(fr, ins, msg)
+	}
+	if ex.pendingDefers() {
+		// a deferred call may recover: explore the panicking branch as an execution, not as an obligation
+		if ex.branch(cond, "panic?") {
+			ex.goPanic(fr, ins, msg)
+		}
+		return
 	}
 	ex.H.Stats.PanicChecks++
 	id := "panic@" + ex.position(fr, ins)
@@ -1365,6 +1463,14 @@ func (ex *Exec) callBuiltin(fr *Frame, ins ssa.Instruction, b *ssa.Builtin, args
 	case "print", "println":
 		return nil
 	case "recover":
+		th := ex.cur
+		if sig := th.activePanic; sig != nil && !sig.recovered && th.depth == sig.deferDepth {
+			sig.recovered = true
+			if iv, ok := sig.val.(IfaceV); ok {
+				return iv
+			}
+			ex.unsupported("recover of a non-interface panic value %T", sig.val)
+		}
 		return IfaceV{}
 	case "min", "max":
 		cur := args[0].(*Term)
